@@ -41,6 +41,8 @@ struct Bind {
     app: usize,
     addr: u32,
     port: u16,
+    /// None: bound in start() before the barrier; Some(us): bound while traffic is already flowing
+    late_us: Option<u64>,
 }
 
 #[derive(Clone, Debug)]
@@ -53,6 +55,8 @@ struct Dgram {
     port: u16,
     len: usize,
     at_ms: u64,
+    /// part of a flow: several datagrams share (sender, source port, destination); identified by the payload tag
+    shared: bool,
 }
 
 #[derive(Clone, Debug, Default)]
@@ -97,8 +101,27 @@ fn scenario(env: &Env, k: u64, case: u64, rng: &mut rand::rngs::SmallRng, d: &mu
                     3 | 4 => 0,
                     _ => 0xFFFF_FFFF,
                 };
-                binds.push(Bind { machine: m, app: a, addr: addr_choice, port: *rng.pick(&PORTS[..3]) });
+                binds.push(Bind { machine: m, app: a, addr: addr_choice, port: *rng.pick(&PORTS[..3]), late_us: None });
             }
+        }
+    }
+    // late binds: made while datagrams are already arriving (half of the scenarios). The binding in force when a
+    // datagram arrives decides, so a flow that started under the wildcard must move to an exact binding made later.
+    let with_late = rng.chance(1, 2);
+    if with_late {
+        for _ in 0..rng.gen_range(1..=5) {
+            let m = rng.gen_range(0..n);
+            if napps[m] == 0 {
+                continue;
+            }
+            let a = rng.gen_range(0..napps[m]);
+            let addr_choice = match rng.gen_range(0..6) {
+                0 | 1 | 2 => addr[m],
+                3 => addr[(m + 1) % n],
+                4 => 0,
+                _ => 0xFFFF_FFFF,
+            };
+            binds.push(Bind { machine: m, app: a, addr: addr_choice, port: *rng.pick(&PORTS[..3]), late_us: Some(rng.gen_range(1..60) * 1000 + 500) });
         }
     }
     // datagrams
@@ -124,16 +147,29 @@ fn scenario(env: &Env, k: u64, case: u64, rng: &mut rand::rngs::SmallRng, d: &mu
             3 => mtu as usize - 27,
             _ => rng.gen_range(4..=64),
         };
-        dgrams.push(Dgram { id: id + 1, machine: m, app: a, sport: 1000 + id as u16, addr: to, port: *rng.pick(&PORTS), len, at_ms: rng.gen_range(0..40) });
+        dgrams.push(Dgram { id: id + 1, machine: m, app: a, sport: 1000 + id as u16, addr: to, port: *rng.pick(&PORTS), len, at_ms: rng.gen_range(0..40), shared: false });
+    }
+    if with_late {
+        // flows: the same (sender, source port) -> (address, port) used again and again across the late binds
+        let mut id = nd as u32;
+        for f in 0..rng.gen_range(1..=3u16) {
+            let (m, a) = senders[rng.gen_range(0..senders.len())];
+            let to = if rng.chance(1, 6) { 0xFFFF_FFFF } else { addr[rng.gen_range(0..n)] };
+            let port = *rng.pick(&PORTS[..3]);
+            for _ in 0..rng.gen_range(2..=6) {
+                id += 1;
+                dgrams.push(Dgram { id, machine: m, app: a, sport: 2000 + f, addr: to, port, len: rng.gen_range(4..=40), at_ms: rng.gen_range(0..70), shared: true });
+            }
+        }
     }
     let desc = json!({
         "machines": n, "arp": has_arp, "mtu": mtu, "latency_ms": lat, "apps_per_machine": napps,
-        "binds": binds.iter().map(|b| format!("m{} app{} {}:{}", b.machine, b.app, ip(b.addr), b.port)).collect::<Vec<_>>(),
+        "binds": binds.iter().map(|b| format!("m{} app{} {}:{}{}", b.machine, b.app, ip(b.addr), b.port, b.late_us.map(|u| format!(" late at {u}us")).unwrap_or_default())).collect::<Vec<_>>(),
         "datagrams": dgrams.iter().map(|g| format!("#{} m{} app{} :{} -> {}:{} len {} at {}ms", g.id, g.machine, g.app, g.sport, ip(g.addr), g.port, g.len, g.at_ms)).collect::<Vec<_>>(),
         "scenario": k, "case": case,
     });
 
-    let bind_results: Arc<Mutex<Vec<(usize, bool)>>> = Arc::new(Mutex::new(vec![])); // (index in binds, ok)
+    let bind_results: Arc<Mutex<Vec<(usize, bool, Duration)>>> = Arc::new(Mutex::new(vec![])); // (index in binds, ok, virtual time)
     let send_results: Arc<Mutex<HashMap<u32, SendRes>>> = Arc::new(Mutex::new(HashMap::new()));
     let log: Log = Arc::new(Mutex::new(vec![]));
     let (rec, macs) = {
@@ -166,7 +202,10 @@ fn scenario(env: &Env, k: u64, case: u64, rng: &mut rand::rngs::SmallRng, d: &mu
                 }
                 // a machine without applications still needs its address known to ARP
                 for a in 0..napps[m].max(1) {
-                    let my_binds: Vec<(usize, Bind)> = binds.iter().cloned().enumerate().filter(|(_, b)| b.machine == m && b.app == a).collect();
+                    let my_binds: Vec<(usize, Bind)> = binds.iter().cloned().enumerate().filter(|(_, b)| b.machine == m && b.app == a && b.late_us.is_none()).collect();
+                    let mut my_late: Vec<(usize, Bind)> = binds.iter().cloned().enumerate().filter(|(_, b)| b.machine == m && b.app == a && b.late_us.is_some()).collect();
+                    my_late.sort_by_key(|(_, b)| b.late_us);
+                    let late_results = bind_results.clone();
                     let my_dgrams: Vec<Dgram> = {
                         let mut v: Vec<Dgram> = dgrams.iter().filter(|g| g.machine == m && g.app == a).cloned().collect();
                         v.sort_by_key(|g| g.at_ms);
@@ -184,7 +223,7 @@ fn scenario(env: &Env, k: u64, case: u64, rng: &mut rand::rngs::SmallRng, d: &mu
                             let udp = machine.protocol::<Udp>().unwrap();
                             for (idx, b) in my_binds {
                                 let r = udp.listen(me, Endpoint::new(ip(b.addr), b.port), machine.clone());
-                                bind_results.lock().unwrap().push((idx, r.is_ok()));
+                                bind_results.lock().unwrap().push((idx, r.is_ok(), t0.elapsed()));
                             }
                         })
                     }));
@@ -192,6 +231,16 @@ fn scenario(env: &Env, k: u64, case: u64, rng: &mut rand::rngs::SmallRng, d: &mu
                         Box::pin(async move {
                             let udp = machine.protocol::<Udp>().unwrap();
                             let mut handles = vec![];
+                            if !my_late.is_empty() {
+                                let (udp, machine) = (udp.clone(), machine.clone());
+                                handles.push(tokio::spawn(async move {
+                                    for (idx, b) in my_late {
+                                        tokio::time::sleep_until(t0 + Duration::from_micros(b.late_us.unwrap())).await;
+                                        let r = udp.listen(me, Endpoint::new(ip(b.addr), b.port), machine.clone());
+                                        late_results.lock().unwrap().push((idx, r.is_ok(), t0.elapsed()));
+                                    }
+                                }));
+                            }
                             for g in my_dgrams {
                                 let machine = machine.clone();
                                 let udp = udp.clone();
@@ -239,9 +288,9 @@ fn scenario(env: &Env, k: u64, case: u64, rng: &mut rand::rngs::SmallRng, d: &mu
     let witness = |extra: Value| json!({"config": desc, "detail": extra});
 
     // bindings: first bind of an endpoint on a machine succeeds, later ones must fail
-    let mut table: Vec<HashMap<(u32, u16), usize>> = vec![HashMap::new(); n]; // machine -> endpoint -> app
+    let mut table: Vec<HashMap<(u32, u16), (usize, Duration)>> = vec![HashMap::new(); n]; // machine -> endpoint -> (app, bound since)
     let mut competition = false;
-    let mut order: Vec<(usize, bool)> = bres.clone();
+    let mut order: Vec<(usize, bool, Duration)> = bres.clone();
     order.sort_by_key(|x| x.0);
     if order.len() != binds.len() {
         d.inconclusive += 1;
@@ -252,7 +301,7 @@ fn scenario(env: &Env, k: u64, case: u64, rng: &mut rand::rngs::SmallRng, d: &mu
     // per endpoint exactly one attempt succeeded, and it is the one recorded first in time for that machine.
     for m in 0..n {
         let mut by_ep: HashMap<(u32, u16), Vec<(usize, bool)>> = HashMap::new();
-        for (idx, ok) in bres.iter() {
+        for (idx, ok, _) in bres.iter() {
             let b = &binds[*idx];
             if b.machine == m {
                 by_ep.entry((b.addr, b.port)).or_default().push((*idx, *ok));
@@ -273,7 +322,8 @@ fn scenario(env: &Env, k: u64, case: u64, rng: &mut rand::rngs::SmallRng, d: &mu
                 d.violation("bind:later-bind-displaced-first", format!("machine {m}: the first bind of {}:{} failed but a later one succeeded", ip(ep.0), ep.1), witness(json!({})));
                 return;
             }
-            table[m].insert(ep, binds[oks[0].0].app);
+            let since = bres.iter().find(|x| x.0 == oks[0].0).map(|x| x.2).unwrap_or(Duration::ZERO);
+            table[m].insert(ep, (binds[oks[0].0].app, since));
         }
         // exact/wildcard competition present?
         for ((a, p), _) in table[m].iter() {
@@ -282,7 +332,29 @@ fn scenario(env: &Env, k: u64, case: u64, rng: &mut rand::rngs::SmallRng, d: &mu
             }
         }
     }
-    let expected_app = |m: usize, a: u32, p: u16| -> Option<usize> { table[m].get(&(a, p)).or_else(|| table[m].get(&(0, p))).copied() };
+    // the binding in force at virtual time `at`; Err(()) when a relevant bind happened at exactly that instant
+    let expected_app = |m: usize, a: u32, p: u16, at: Option<Duration>| -> Result<Option<usize>, ()> {
+        let pick = |ep: (u32, u16)| -> Result<Option<usize>, ()> {
+            match (table[m].get(&ep), at) {
+                (None, _) => Ok(None),
+                (Some((app, since)), _) if *since == Duration::ZERO => Ok(Some(*app)),
+                (Some(_), None) => Err(()),
+                (Some((app, since)), Some(t)) => {
+                    if *since == t {
+                        Err(())
+                    } else if *since < t {
+                        Ok(Some(*app))
+                    } else {
+                        Ok(None)
+                    }
+                }
+            }
+        };
+        match pick((a, p))? {
+            Some(app) => Ok(Some(app)),
+            None => pick((0, p)),
+        }
+    };
 
     let mut unbound_seen = false;
     for g in &dgrams {
@@ -297,6 +369,7 @@ fn scenario(env: &Env, k: u64, case: u64, rng: &mut rand::rngs::SmallRng, d: &mu
         let mine: Vec<&DemuxEvent> = events
             .iter()
             .filter(|e| e.udp.map(|u| u.source == g.sport).unwrap_or(false) && e.ipv4.map(|h| h.source == ip(addr[g.machine])).unwrap_or(false))
+            .filter(|e| !g.shared || (e.payload.len() >= 4 && e.payload[..4] == g.id.to_be_bytes()))
             .collect();
         let too_big = g.len + 28 > mtu as usize && (g.addr >> 24) != 127;
         if too_big {
@@ -311,11 +384,11 @@ fn scenario(env: &Env, k: u64, case: u64, rng: &mut rand::rngs::SmallRng, d: &mu
             continue;
         }
         // where did the frame go?
-        let mut reached: Vec<usize> = vec![];
+        let mut reached: Vec<(usize, Option<Duration>)> = vec![];
         let loopback = (g.addr >> 24) == 127;
         if loopback {
             if r.sent_ok || r.opened {
-                reached.push(g.machine);
+                reached.push((g.machine, None));
             }
         } else {
             for f in frames.iter().filter(|f| f.kind == Kind::Ipv4) {
@@ -323,10 +396,11 @@ fn scenario(env: &Env, k: u64, case: u64, rng: &mut rand::rngs::SmallRng, d: &mu
                 if f.bytes.len() >= 28 {
                     if let Ok(h) = Ipv4Header::from_bytes(f.bytes.iter().cloned()) {
                         let sp = u16::from_be_bytes([f.bytes[20], f.bytes[21]]);
-                        if h.source == ip(addr[g.machine]) && sp == g.sport && h.protocol == 17 {
-                            for (tap, _, _) in &f.deliveries {
+                        let tag_ok = !g.shared || (f.bytes.len() >= 32 && f.bytes[28..32] == g.id.to_be_bytes());
+                        if h.source == ip(addr[g.machine]) && sp == g.sport && h.protocol == 17 && tag_ok {
+                            for (tap, at, _) in &f.deliveries {
                                 if let Some(m) = macs.iter().position(|x| x == tap) {
-                                    reached.push(m);
+                                    reached.push((m, Some(*at)));
                                 }
                             }
                         }
@@ -340,8 +414,24 @@ fn scenario(env: &Env, k: u64, case: u64, rng: &mut rand::rngs::SmallRng, d: &mu
         let mut any_expected = false;
         for m in 0..n {
             let here: Vec<&&DemuxEvent> = mine.iter().filter(|e| e.machine == m).collect();
-            let times_reached = reached.iter().filter(|x| **x == m).count();
-            let want = if times_reached > 0 { expected_app(m, g.addr, g.port) } else { None };
+            let times_reached = reached.iter().filter(|x| x.0 == m).count();
+            let want = if times_reached > 0 {
+                let at = reached.iter().find(|x| x.0 == m).and_then(|x| x.1);
+                match expected_app(m, g.addr, g.port, at) {
+                    Ok(w) => w,
+                    Err(()) => {
+                        // a bind of this very endpoint at the very instant of arrival (or, for loopback, at an
+                        // instant the hook does not see): either outcome is correct
+                        d.tally("arrivals_simultaneous_with_a_bind_not_judged", 1);
+                        continue;
+                    }
+                }
+            } else {
+                None
+            };
+            if times_reached > 0 && table[m].iter().any(|(ep, (_, since))| ep.1 == g.port && *since > Duration::ZERO) {
+                d.tally("arrivals_judged_against_time_dependent_bindings", 1);
+            }
             if want.is_some() {
                 any_expected = true;
             }
@@ -356,7 +446,7 @@ fn scenario(env: &Env, k: u64, case: u64, rng: &mut rand::rngs::SmallRng, d: &mu
                                 ip(g.addr),
                                 g.port,
                                 here[0].app,
-                                table[m].iter().map(|(k, v)| format!("{}:{}->app{}", ip(k.0), k.1, v)).collect::<Vec<_>>()
+                                table[m].iter().map(|(k, v)| format!("{}:{}->app{} since {:?}", ip(k.0), k.1, v.0, v.1)).collect::<Vec<_>>()
                             ),
                             witness(json!({"datagram": format!("{g:?}")})),
                         );
@@ -366,8 +456,9 @@ fn scenario(env: &Env, k: u64, case: u64, rng: &mut rand::rngs::SmallRng, d: &mu
                 Some(app) => {
                     if here.len() != times_reached || here.iter().any(|e| e.app != app) {
                         let exact = table[m].contains_key(&(g.addr, g.port));
+                        let late = table[m].iter().any(|(ep, (_, since))| ep.1 == g.port && *since > Duration::ZERO);
                         let sig = if here.iter().any(|e| e.app != app) {
-                            if exact { "wrong-listener:exact-binding-bypassed" } else { "wrong-listener" }
+                            if exact && late { "wrong-listener:exact-binding-made-later-bypassed" } else if exact { "wrong-listener:exact-binding-bypassed" } else { "wrong-listener" }
                         } else if here.len() < times_reached {
                             "not-delivered-to-bound-listener"
                         } else {
@@ -382,7 +473,7 @@ fn scenario(env: &Env, k: u64, case: u64, rng: &mut rand::rngs::SmallRng, d: &mu
                                 g.port,
                                 here.iter().map(|e| e.app).collect::<Vec<_>>()
                             ),
-                            witness(json!({"datagram": format!("{g:?}"), "bindings": table[m].iter().map(|(k, v)| format!("{}:{}->app{}", ip(k.0), k.1, v)).collect::<Vec<_>>()})),
+                            witness(json!({"datagram": format!("{g:?}"), "bindings": table[m].iter().map(|(k, v)| format!("{}:{}->app{} since {:?}", ip(k.0), k.1, v.0, v.1)).collect::<Vec<_>>()})),
                         );
                         return;
                     }
